@@ -73,193 +73,15 @@ pub proof fn lemma_fqueue_pop(q: Seq<ProgramLocation>, f: Function, x: Loc)
     }
 }
 
-/// abstract locations of a list of borrowed program locations
-pub open spec fn rpl_locs(v: Seq<RefProgramLocation>) -> Seq<Loc> {
-    Seq::new(v.len(), |i: int| v[i].loc())
-}
-
-/// what `backward()` (forward analysis) / `forward()` (backward analysis) returns lists the inputs
-pub proof fn lemma_rpls_inputs(v: Seq<RefProgramLocation>, f: Function, fwd: bool, x: Loc, sel: spec_fn(Loc) -> bool)
-    requires lists_rpls(v, f, sel), forall|l: Loc| #![trigger sel(l)] sel(l) <==> input_of(f, fwd, x, l),
+pub proof fn lemma_fqueue_push(q: Seq<ProgramLocation>, f: Function, x: Loc)
     ensures
-        lists_inputs(f, fwd, x, rpl_locs(v)),
-        forall|i: int| 0 <= i < v.len() ==> *(#[trigger] v[i]).function == f && rfl_in(f, v[i].function_location),
+        forall|l: Loc| #![trigger fqueue(q.push(ploc(f, x)), f)(l)] fqueue(q.push(ploc(f, x)), f)(l) <==> (fqueue(q, f)(l) || l == x),
+        fq_ok(q, f) ==> fq_ok(q.push(ploc(f, x)), f),
 {
-    let ps = rpl_locs(v);
-    assert forall|i: int| 0 <= i < ps.len() implies input_of(f, fwd, x, #[trigger] ps[i]) by {
-        assert(sel(loc_of(v[i].function_location)));
-    }
-    assert forall|i: int, j: int| 0 <= i < j < ps.len() implies #[trigger] ps[i] != #[trigger] ps[j] by {
-        assert(loc_of(v[i].function_location) != loc_of(v[j].function_location));
-    }
-    assert forall|p: Loc| #[trigger] input_of(f, fwd, x, p) implies ps.contains(p) by {
-        assert(sel(p));
-        let i = choose|i: int| 0 <= i < v.len() && loc_of((#[trigger] v[i]).function_location) == p;
-        assert(ps[i] == p);
-    }
-}
-
-/// what `forward()` (forward analysis) / `backward()` (backward analysis) returns lists the followers
-pub proof fn lemma_rpls_steps(v: Seq<RefProgramLocation>, f: Function, fwd: bool, x: Loc, sel: spec_fn(Loc) -> bool)
-    requires lists_rpls(v, f, sel), forall|l: Loc| #![trigger sel(l)] sel(l) <==> step(f, fwd, x, l),
-    ensures
-        forall|i: int| 0 <= i < v.len() ==> *(#[trigger] v[i]).function == f && rfl_in(f, v[i].function_location) && step(f, fwd, x, v[i].loc()),
-        forall|l: Loc| #[trigger] step(f, fwd, x, l) ==> rpl_locs(v).contains(l),
-{
-    let ps = rpl_locs(v);
-    assert forall|i: int| 0 <= i < v.len() implies step(f, fwd, x, (#[trigger] v[i]).loc()) by {
-        assert(sel(loc_of(v[i].function_location)));
-    }
-    assert forall|l: Loc| #[trigger] step(f, fwd, x, l) implies ps.contains(l) by {
-        assert(sel(l));
-        let i = choose|i: int| 0 <= i < v.len() && loc_of((#[trigger] v[i]).function_location) == l;
-        assert(ps[i] == l);
-    }
-}
-
-/// a valid location can be applied to its function
-pub proof fn lemma_valid_applies(f: Function, fl: FunctionLocation)
-    requires loc_valid(f, fl_loc(fl)),
-    ensures fl_applies(f, fl),
-{
-}
-
-/// order-equivalence of optional states
-pub open spec fn opt_eqv<'f, S: 'f + Clone + Debug + PartialOrd, A: FixedPointAnalysis<'f, S>>(a: &A, x: Option<S>, y: Option<S>) -> bool {
-    opt_le(a, x, y) && opt_le(a, y, x)
-}
-
-/// one executed step of the predecessor fold computes (up to order-equivalence) one step of the spec fold
-pub proof fn lemma_fold_step_exec<'f, S: 'f + Clone + Debug + PartialOrd, A: FixedPointAnalysis<'f, S>>(a: &A, acc_exec: Option<S>, acc_spec: Option<S>, x: Option<S>, r: Option<S>)
-    requires
-        opt_inv(a, acc_exec), opt_inv(a, acc_spec), opt_inv(a, x), opt_eqv(a, acc_exec, acc_spec),
-        match x {
-            Some(xs) => r matches Some(rv) && a.st_inv(rv) && match acc_exec {
-                Some(s) => eqv(a, rv, a.join_spec(s, xs)),
-                None => eqv(a, rv, xs),
-            },
-            None => r == acc_exec,
-        },
-    ensures opt_inv(a, r), opt_eqv(a, r, fold_step(a, acc_spec, x)),
-{
-    lemma_opt_le_refl(a, x);
-    lemma_fold_step_mono(a, acc_exec, x, acc_spec, x);
-    lemma_fold_step_mono(a, acc_spec, x, acc_exec, x);
-    let e = fold_step(a, acc_exec, x);
-    let s = fold_step(a, acc_spec, x);
-    if x is Some {
-        let rv = r.unwrap();
-        a.law_le_trans(rv, e.unwrap(), s.unwrap());
-        a.law_le_trans(s.unwrap(), e.unwrap(), rv);
-    }
-}
-
-/// the executed transfer computes (up to order-equivalence) the transfer of the spec in-state
-pub proof fn lemma_trans_exec<'f, S: 'f + Clone + Debug + PartialOrd, A: FixedPointAnalysis<'f, S>>(a: &A, f: Function, fwd: bool, x: Loc, in_exec: Option<S>, in_spec: Option<S>, v: S)
-    requires
-        a.an_inv(f), f.function_wf(), fp_closure(f, fwd, x),
-        opt_inv(a, in_exec), opt_inv(a, in_spec), opt_eqv(a, in_exec, in_spec),
-        a.st_inv(v), eqv(a, v, a.trans_spec(f, x, in_exec)),
-    ensures eqv(a, v, a.trans_spec(f, x, in_spec)),
-{
-    a.law_trans_inv(f, fwd, x, in_exec);
-    a.law_trans_inv(f, fwd, x, in_spec);
-    if in_exec is Some {
-        a.law_trans_cong(f, fwd, x, in_exec.unwrap(), in_spec.unwrap());
-        a.law_trans_cong(f, fwd, x, in_spec.unwrap(), in_exec.unwrap());
-        a.law_le_trans(v, a.trans_spec(f, x, in_exec), a.trans_spec(f, x, in_spec));
-        a.law_le_trans(a.trans_spec(f, x, in_spec), a.trans_spec(f, x, in_exec), v);
-    }
-}
-
-/// the errors the solver may return
-pub open spec fn fp_error<'f, S: 'f + Clone + Debug + PartialOrd, A: FixedPointAnalysis<'f, S>>(a: &A, f: Function, fwd: bool, force: bool, e: Error) -> bool {
-    ||| start_loc(f, fwd) is None && e == (if fwd { Error::FixedPointRequiresEntry } else { Error::FixedPointRequiresExit })
-    ||| start_loc(f, fwd) is Some && fwd && e == Error::FixedPointMaxSteps
-    ||| start_loc(f, fwd) is Some && trans_failed(a, f, fwd, e)
-    ||| start_loc(f, fwd) is Some && !force && !a.monotone(f, fwd) && e is FixedPointOrdering
-}
-
-/// `e` is an error `trans` returned at a location of the closure
-pub open spec fn trans_failed<'f, S: 'f + Clone + Debug + PartialOrd, A: FixedPointAnalysis<'f, S>>(a: &A, f: Function, fwd: bool, e: Error) -> bool {
-    exists|l: Loc, s: Option<S>| fp_closure(f, fwd, l) && opt_inv(a, s) && #[trigger] a.trans_err(f, l, s, e)
-}
-
-/// the state of the popped location after the `Equal => continue` arm satisfies its equation
-pub proof fn lemma_equal_case<'f, S: 'f + Clone + Debug + PartialOrd, A: FixedPointAnalysis<'f, S>>(a: &A, f: Function, fwd: bool, st: LMap<S>, inq: LSet, li: LMap<S>,
-        x: Loc, ps: Seq<Loc>, v: S)
-    requires
-        f.function_wf(), a.an_inv(f),
-        a.cmp_exact() || a.monotone(f, fwd),
-        dom_inv(a, f, fwd, st, inq), inq(x), st(x) is Some,
-        a.monotone(f, fwd) ==> asc_inv(a, f, fwd, st, li),
-        lists_inputs(f, fwd, x, ps),
-        a.st_inv(v), eqv(a, v, a.trans_spec(f, x, in_fold(a, st, ps))),
-        vstd::std_specs::cmp::PartialOrdSpec::partial_cmp_spec(&v, &st(x).unwrap()) == Some(core::cmp::Ordering::Equal),
-    ensures eqv(a, st(x).unwrap(), a.trans_spec(f, x, in_fold(a, st, ps))),
-{
-    let old = st(x).unwrap();
-    lemma_queued(a, f, fwd, st, inq, x);
-    assert(opt_inv(a, st(x)));
-    lemma_inputs_inv(a, st, ps);
-    lemma_fold_inv(a, st, ps, ps.len());
-    let tv = a.trans_spec(f, x, in_fold(a, st, ps));
-    a.law_trans_inv(f, fwd, x, in_fold(a, st, ps));
-    if a.monotone(f, fwd) {
-        lemma_recomputed_above(a, f, fwd, st, inq, li, x, ps, v);
-        a.law_cmp_equal(f, fwd, v, old);
-    } else {
-        a.law_cmp_exact(v, old);
-    }
-    a.law_le_trans(old, v, tv);
-    a.law_le_trans(tv, v, old);
-}
-
-/// a monotone analysis never reaches the FixedPointOrdering error
-pub proof fn lemma_no_ordering_error<'f, S: 'f + Clone + Debug + PartialOrd, A: FixedPointAnalysis<'f, S>>(a: &A, f: Function, fwd: bool, st: LMap<S>, inq: LSet, li: LMap<S>,
-        x: Loc, ps: Seq<Loc>, v: S)
-    requires
-        f.function_wf(), a.an_inv(f), a.monotone(f, fwd),
-        dom_inv(a, f, fwd, st, inq), inq(x), st(x) is Some,
-        asc_inv(a, f, fwd, st, li),
-        lists_inputs(f, fwd, x, ps),
-        a.st_inv(v), eqv(a, v, a.trans_spec(f, x, in_fold(a, st, ps))),
-    ensures
-        a.le(st(x).unwrap(), v),
-        vstd::std_specs::cmp::PartialOrdSpec::partial_cmp_spec(&v, &st(x).unwrap()) == Some(core::cmp::Ordering::Equal)
-            || vstd::std_specs::cmp::PartialOrdSpec::partial_cmp_spec(&v, &st(x).unwrap()) == Some(core::cmp::Ordering::Greater),
-{
-    lemma_queued(a, f, fwd, st, inq, x);
-    assert(opt_inv(a, st(x)));
-    lemma_recomputed_above(a, f, fwd, st, inq, li, x, ps, v);
-    a.law_cmp_ascending(f, fwd, v, st(x).unwrap());
-}
-
-/// the queue-dependent part of the work-list invariant
-pub open spec fn q_inv<'f, S: 'f + Clone + Debug + PartialOrd, A: FixedPointAnalysis<'f, S>>(a: &A, f: Function, fwd: bool, eqs: bool, st: LMap<S>, inq: LSet) -> bool {
-    dom_inv(a, f, fwd, st, inq) && (eqs ==> eq_inv(a, f, fwd, st, inq))
-}
-
-/// the work list after enqueuing the first `n` listed followers: the rest of the old queue plus those followers
-pub open spec fn queue_rel(inq_rest: LSet, inq_new: LSet, locs: Seq<Loc>, n: int) -> bool {
-    forall|l: Loc| #![trigger inq_new(l)] inq_new(l) <==> (inq_rest(l) || exists|j: int| 0 <= j < n && locs[j] == l)
-}
-
-/// one iteration of the enqueue loop, whether or not the follower is pushed
-pub proof fn lemma_queue_rel_push(f: Function, inq_rest: LSet, q: Seq<ProgramLocation>, locs: Seq<Loc>, n: int)
-    requires queue_rel(inq_rest, fqueue(q, f), locs, n), 0 <= n < locs.len(),
-    ensures
-        q.contains(ploc(f, locs[n])) ==> queue_rel(inq_rest, fqueue(q, f), locs, n + 1),
-        queue_rel(inq_rest, fqueue(q.push(ploc(f, locs[n])), f), locs, n + 1),
-        fq_ok(q, f) ==> fq_ok(q.push(ploc(f, locs[n])), f),
-{
-    let k = ploc(f, locs[n]);
+    let k = ploc(f, x);
     let q2 = q.push(k);
-    let a = fqueue(q, f);
-    let b = fqueue(q2, f);
-    assert forall|l: Loc| #![trigger b(l)] b(l) <==> (inq_rest(l) || exists|j: int| 0 <= j < n + 1 && locs[j] == l) by {
-        lemma_ploc_inj(f, l, locs[n]);
-        assert(a(l) <==> (inq_rest(l) || exists|j: int| 0 <= j < n && locs[j] == l));
+    assert forall|l: Loc| #![trigger fqueue(q2, f)(l)] fqueue(q2, f)(l) <==> (fqueue(q, f)(l) || l == x) by {
+        lemma_ploc_inj(f, l, x);
         if q2.contains(ploc(f, l)) {
             let i = choose|i: int| 0 <= i < q2.len() && q2[i] == ploc(f, l);
             if i < q.len() { assert(q[i] == ploc(f, l)); }
@@ -268,13 +90,15 @@ pub proof fn lemma_queue_rel_push(f: Function, inq_rest: LSet, q: Seq<ProgramLoc
             let i = choose|i: int| 0 <= i < q.len() && q[i] == ploc(f, l);
             assert(q2[i] == ploc(f, l));
         }
-        if l == locs[n] { assert(q2[q.len() as int] == k); }
+        if l == x { assert(q2[q.len() as int] == k); }
     }
-    if q.contains(k) {
-        assert forall|l: Loc| #![trigger a(l)] a(l) <==> (inq_rest(l) || exists|j: int| 0 <= j < n + 1 && locs[j] == l) by {
-            assert(a(l) <==> (inq_rest(l) || exists|j: int| 0 <= j < n && locs[j] == l));
-        }
-    }
+}
+
+/// a valid location can be applied to its function
+pub proof fn lemma_valid_applies(f: Function, fl: FunctionLocation)
+    requires loc_valid(f, fl_loc(fl)),
+    ensures fl_applies(f, fl),
+{
 }
 
 //@ source lib/analysis/fixed_point.rs
@@ -443,7 +267,8 @@ pub proof fn lemma_queue_rel_push(f: Function, inq_rest: LSet, q: Seq<ProgramLoc
     proof {
         assert(successor == sv[it2.index@]);
         assert(locs[it2.index@] == successor.loc());
-        lemma_queue_rel_push(f, inq_rest, queue@, locs, it2.index@);
+        lemma_fqueue_push(queue@, f, locs[it2.index@]);
+        lemma_queue_rel_step(inq_rest, fqueue(queue@, f), fqueue(queue@.push(ploc(f, locs[it2.index@])), f), locs, it2.index@);
     }
 //@ before 0 `Ok(states)`
     proof {
